@@ -126,7 +126,30 @@ def levenshtein(a, b):
     return prev[-1]
 
 
+_F32_INPUTS = False
+
+
+class f32_inputs:
+    """`with oracle.f32_inputs():` - positional references are evaluated on the float32-rounded (start, end, duration)
+    triple the library documents it works on.  Needed for continua with arbitrary float times (sampled continua): with
+    times ~100 and close units the rounding of the INPUTS alone is of the order of the 2e-5 band.  No effect on grid times."""
+
+    def __enter__(self):
+        global _F32_INPUTS
+        self.prev, _F32_INPUTS = _F32_INPUTS, True
+
+    def __exit__(self, *exc):
+        global _F32_INPUTS
+        _F32_INPUTS = self.prev
+        return False
+
+
 def ref_positional(u, v, delta=1.0):
+    if _F32_INPUTS:
+        f = lambda x: float(np.float32(x))
+        num = abs(f(u[0]) - f(v[0])) + abs(f(u[1]) - f(v[1]))
+        den = f(u[1] - u[0]) + f(v[1] - v[0])
+        return (num / den) ** 2 * delta
     num = abs(u[0] - v[0]) + abs(u[1] - v[1])
     den = (u[1] - u[0]) + (v[1] - v[0])
     return (num / den) ** 2 * delta
